@@ -12,6 +12,7 @@ mod props;
 mod rng;
 mod sup;
 mod val;
+mod wild;
 mod xform;
 
 use sup::{Check, Ctx, Tier};
@@ -173,6 +174,19 @@ fn main() {
             use std::io::Read;
             std::io::stdin().read_to_string(&mut text).unwrap();
             println!("{}", props::c16::rendering(&text));
+        }
+        "debug-parse" => {
+            // nlv debug-parse <file>: the tree the real parser returns (mirror rendering), one statement per line
+            let text = std::fs::read_to_string(&args[2]).unwrap();
+            match ast::parse_real(&text) {
+                Ok(t) => {
+                    for s in &t {
+                        println!("{:?}", s);
+                    }
+                    println!("--- printed again: {}", print::to_text(&t));
+                }
+                Err((k, m)) => println!("error {}: {}", k.name(), m),
+            }
         }
         "debug-eval" => {
             // nlv debug-eval <file> [t|f ...]: evaluate under probes with an optional branch schedule, print the trace
